@@ -61,12 +61,18 @@ def check_case(ctx, ds, lname, n, schemes):
                 want = None
             else:
                 want = refmodel.ref_borda(ds, universe, fam or 'induced', ubi)
-            for one in (True, False):
-                case = {'cfg': {}, 'dataset': ds, 'labels': lname, 'n': n, 'scheme': s, 'use_bucket_id': ubi, 'one': one}
+            for one, reused in ((True, False), (False, False), (True, True)):
+                case = {'cfg': {}, 'dataset': ds, 'labels': lname, 'n': n, 'scheme': s, 'use_bucket_id': ubi, 'one': one,
+                        'reused_object': reused}
                 ctx.evals += 1
+                if reused:
+                    alg = _lib.setdefault(('inst', ubi), _lib['A'](use_bucket_id=ubi))
+                    ctx.count('executions_on_a_reused_algorithm_object')
+                else:
+                    alg = _lib['A'](use_bucket_id=ubi)
                 try:
                     with watchdog(30):
-                        c = _lib['A'](use_bucket_id=ubi).compute_consensus_rankings(dataset, scheme, one)
+                        c = alg.compute_consensus_rankings(dataset, scheme, one)
                 except _lib['Refuse'] as e:
                     if want is not None:
                         ctx.violation('borda-refuses-an-accepted-input', case, 'ScoringSchemeNotHandledException', want)
